@@ -82,6 +82,9 @@ enum Role {
     None,
     Dispatcher,
     Worker,
+    /// a thread that hit a hook while no simulated run was active (the compile worker of a reference
+    /// server, a probe request): it must never be mistaken for the worker of a later run
+    Foreign,
 }
 thread_local! {
     static ROLE: Cell<Role> = const { Cell::new(Role::None) };
@@ -112,7 +115,7 @@ pub fn install() -> Arc<Shared> {
             std::panic::set_hook(Box::new(move |info| {
                 let role = ROLE.with(|r| r.get());
                 let msg = format!("{info}").replace('\n', " ");
-                if role != Role::None {
+                if role == Role::Worker || role == Role::Dispatcher {
                     if let Ok(mut g) = sh2.m.lock() {
                         g.panics.push(format!("{}: {}", if role == Role::Worker { "compile worker" } else { "handler" }, msg.chars().take(300).collect::<String>()));
                         if role == Role::Worker {
@@ -135,6 +138,7 @@ fn hook(site: &'static str, pred: Option<&dyn Fn() -> bool>) {
     match ROLE.with(|r| r.get()) {
         Role::Dispatcher => dispatcher_hook(site, pred),
         Role::Worker => worker_hook(sh, site, pred),
+        Role::Foreign => {}
         Role::None => {
             // the compile worker of the simulated server registers on its first hook
             let mut g = sh.m.lock().unwrap();
@@ -145,6 +149,9 @@ fn hook(site: &'static str, pred: Option<&dyn Fn() -> bool>) {
                 WEPOCH.with(|w| w.set(e));
                 ROLE.with(|r| r.set(Role::Worker));
                 worker_hook(sh, site, pred);
+            } else if !g.active {
+                drop(g);
+                ROLE.with(|r| r.set(Role::Foreign));
             }
         }
     }
